@@ -24,7 +24,7 @@ LEVEL_TEXT = ("Partial: the table/name/day-number clauses and four structural id
               "~9000 literals is read from MIR and checked; key sets are compared with the enum's variants). The numeric core - solar geometry against spherical "
               "astronomy, agreement of the tables with the radiation model - is NOT decided by this family.")
 LEVEL_NOTE = "Trusted: rustc MIR constant evaluation; the structural recogniser of vec! literals."
-TECHNIQUE = "literal/decision-table extraction from MIR + normalised-expression comparison (incl. sun position with trigonometric identities, 6 quadrant cases) + argument-role agreement on f32 angle parameters"
+TECHNIQUE = "literal/decision-table extraction from MIR + normalised-expression comparison (incl. sun position with trigonometric identities, 8 sign cases) + inverse-trig domain rule (argument is a sine/cosine or clamped) + sibling cross-check of the table labels against the model's own azimuth classifier + argument-role agreement on f32 angle parameters"
 FIXTURE_EXPECT = ["c20.names"]
 
 
